@@ -150,6 +150,64 @@ def all_static(n, cables=2, seed=0, limit=None, variants=(0, 1, 2), canonical=Fa
   return out
 
 
+def flight_scenario(n, bits, idx, cables=2, seed=0, cfg=None, variant=None):
+  """a wiring is brought up and discovered; probes over some of its live wires are delayed; then the
+  environment changes in one of the ways below BEFORE the delayed probes reach the controller (Topo.tla
+  Delay / Late); then the network settles again and is flooded."""
+  np, cab = full_universe(n, cables)
+  wires = [w for c in cab for w in c]
+  phys = [w for w, b in zip(wires, bits) if b]
+  rnd = random.Random(seed * 1000003 + idx + 29)
+  t = timing(cfg or DEFAULT_CFG)
+  order = list(range(1, n + 1))
+  rnd.shuffle(order)
+  steps = [dict(a="SwitchUp", s=s) for s in order] + [dict(a="Advance", d=t["settle"])]
+  if rnd.random() < 0.3:
+    steps.append(dict(a="Advance", d=rnd.choice([1, 2, t["detect"]])))
+  held = rnd.sample(phys, min(len(phys), rnd.choice([1, 1, 2, 3]))) if phys else []
+  steps += [dict(a="Delay", lk=list(w)) for w in held]
+  late = [dict(a="Late", lk=list(w)) for w in held]
+  rnd.shuffle(late)
+  w0 = held[0] if held else [1, 1, 2, 1]
+  variant = (idx + seed) % 9 if variant is None else variant
+  back = []                        # what brings every switch back afterwards
+  if variant == 0:                 # the sender disconnects, then its probe arrives
+    steps += [dict(a="SwitchDown", s=w0[0])] + late
+    back = [w0[0]]
+  elif variant == 1:               # ... and some time passes first (the adjacency has long forgotten the switch)
+    steps += [dict(a="SwitchDown", s=w0[0]), dict(a="Advance", d=rnd.choice([1, t["detect"], t["expire"]]))] + late
+    back = [w0[0]]
+  elif variant == 2:               # the wire is cut (both directions) while the probe is on its way
+    steps += [dict(a="Cut", lk=list(x)) for x in (w0, flip(w0)) if x in phys] + late + \
+             [dict(a="Advance", d=t["expire"])]
+  elif variant == 3:               # nothing happens: the late probe is a mere refresh
+    steps += late
+  elif variant == 4:               # the receiver reconnects meanwhile
+    steps += [dict(a="SwitchDown", s=w0[2]), dict(a="SwitchUp", s=w0[2])] + late
+  elif variant == 5:               # the sender reconnects meanwhile
+    steps += [dict(a="SwitchDown", s=w0[0]), dict(a="SwitchUp", s=w0[0])] + late
+  elif variant == 6:               # a third party (or the sender) goes away; late probes arrive one by one with pauses
+    s = rnd.randint(1, n)
+    steps += [dict(a="SwitchDown", s=s)]
+    for x in late:
+      steps += [x, dict(a="Advance", d=rnd.choice([1, 2]))]
+    back = [s]
+  elif variant == 8:               # the wire is cut AND the sender disconnects
+    steps += [dict(a="Cut", lk=list(x)) for x in (w0, flip(w0)) if x in phys] + [dict(a="SwitchDown", s=w0[0])] + late
+    back = [w0[0]]
+  else:                            # the sender goes away for longer than the link timeout, the probe arrives, it returns
+    steps += [dict(a="SwitchDown", s=w0[0]), dict(a="Advance", d=t["expire"])] + late
+    back = [w0[0]]
+  if back:
+    steps += [dict(a="Advance", d=t["detect"])] + [dict(a="SwitchUp", s=s) for s in back]
+  steps += [dict(a="Advance", d=t["settle"]), dict(a="Advance", d=t["expire"])]
+  steps += [dict(a="Flood", s=1 + idx % n, p=np)]
+  sc = dict(n=n, np=np, wires=wires, phys=phys, steps=steps, seed=seed * 31 + idx, kind="flight%d" % n)
+  if cfg is not None:
+    sc["cfg"] = dict(cfg)
+  return sc
+
+
 def random_net(rnd, n, np, density=0.5, selfloops=False):
   """random wiring: each switch keeps port np as host port"""
   free = {s: list(range(1, np)) for s in range(1, n + 1)}
@@ -174,7 +232,7 @@ def random_net(rnd, n, np, density=0.5, selfloops=False):
   return cab
 
 
-def random_history(seed, n=None, np=None, steps=30, selfloops=False, maxn=5, cfg=None):
+def random_history(seed, n=None, np=None, steps=30, selfloops=False, maxn=5, cfg=None, flight=0.0):
   """cfg: None = default configuration, "random" = a seeded legal one, or an option record"""
   rnd = random.Random(seed)
   n = n or rnd.randint(2, maxn)
@@ -193,6 +251,7 @@ def random_history(seed, n=None, np=None, steps=30, selfloops=False, maxn=5, cfg
   quiet = 99
   still = 99                 # time since the last environment change of any kind
   out = []
+  pending = []               # wires with a delayed probe on its way (Topo.tla flight)
   # usually start by connecting everybody
   if rnd.random() < 0.8:
     order = list(range(1, n + 1))
@@ -203,6 +262,21 @@ def random_history(seed, n=None, np=None, steps=30, selfloops=False, maxn=5, cfg
     quiet = still = 0
   while len(out) < steps:
     k = rnd.random()
+    if flight and rnd.random() < flight:
+      # probes in flight: delay one over a wire that should be known by now / let a delayed one arrive
+      # (the runner performs the step only where Topo.tla enables it)
+      cand = [w for w in wires if tuple(w) in cur and w[0] in up and w[2] in up and w not in pending]
+      if pending and (not cand or rnd.random() < 0.5):
+        w = pending.pop(rnd.randrange(len(pending)))
+        if w[2] in up:
+          out.append(dict(a="Late", lk=list(w)))
+        else:
+          pending.append(w)
+      elif cand and still >= DETECT and quiet >= DETECT and len(pending) < 3:
+        w = rnd.choice(cand)
+        out.append(dict(a="Delay", lk=list(w)))
+        pending.append(w)
+      continue
     if k < 0.40:
       d = rnd.choice([1, 1, 2, 3, max(1, DETECT - 2), max(1, DETECT - 1), DETECT, DETECT, DETECT + 1,
                       EXPIRE - 6, EXPIRE - 5, EXPIRE - 1, EXPIRE, EXPIRE, EXPIRE + 1, EXPIRE + 9])
@@ -262,6 +336,8 @@ def random_history(seed, n=None, np=None, steps=30, selfloops=False, maxn=5, cfg
   if cfg is not None:
     sc["cfg"] = dict(cfg)
     sc["kind"] = "cfghistory"
+  if flight:
+    sc["kind"] = "flight" + sc["kind"]
   return sc
 
 
@@ -274,7 +350,7 @@ def from_tlc(beh, net, seed):
       steps.append(dict(a=a, s=g["s"]))
     elif a == "Advance":
       steps.append(dict(a=a, d=g["d"]))
-    elif a in ("Cut", "Restore"):
+    elif a in ("Cut", "Restore", "Delay", "Late"):
       steps.append(dict(a=a, lk=list(g["l"])))
     elif a == "Flood":
       steps.append(dict(a=a, s=g["s"], p=g["p"]))
